@@ -355,3 +355,37 @@ def c02_repeat(k: int, kind: int, payload: int) -> bool:
         if resp is False:
             return verdict(False)
     return verdict(True)
+
+
+# ---- two faults under one root field (items of one list, siblings of one object, cousins): quick-tier companion of c02_pair ------------------
+TWO = [("Q1", 6, 7), ("Q1", 2, 4), ("Q1", 10, 12), ("Q1", 4, 6), ("Q5", 2, 3), ("Q5", 4, 9), ("Q5", 3, 8), ("Q2", 6, 7), ("Q2", 10, 11), ("Q2", 1, 4), ("Q1", 0, 12), ("Q5", 2, 11)]
+
+
+@obligation(tier="quick", timeout=300, shards=[{"bits": b, "lo": lo} for b in (0, 7) for lo in (0, 4, 8)],
+            samples=[{"p": 0, "kind1": 0, "kind2": 3, "payload": 0}, {"p": 1, "kind1": 1, "kind2": 0, "payload": 2 ** 31}, {"p": 2, "kind1": 4, "kind2": 1, "payload": -1}],
+            symbolic=["payload: int (unbounded) returned at a kind-7 fault point"],
+            selectors=["p: pair of fault points (two items of one list, two siblings, parent/cousin positions, different root fields; 4 per shard)", "kind1, kind2: raise / user error / null / garbage / int payload", "shard: layout"],
+            bounds="12 pairs of fault points x 5 x 5 failure kinds x 2 layouts",
+            note="two simultaneous faults: data == reference propagation and EVERY error entry carries the response path of its own failing field (list indices included), user messages/extensions kept")
+def c02_two(p: int, kind1: int, kind2: int, payload: int) -> bool:
+    """
+    post: _
+    """
+    sh = shard()
+    doc, k1, k2 = TWO[sh["lo"] + pick(p, 4)]
+    KINDS = [0, 1, 3, 4, 7]
+    kind1 = KINDS[pick(kind1, 5)]; kind2 = KINDS[pick(kind2, 5)]
+    pts = POINTS[doc]
+    for k, kd in ((k1, kind1), (k2, kind2)):
+        if meaningless(doc, k, kd):
+            return True
+    if 7 in (kind1, kind2) and any(POINT_NAME[doc][k] in ("String", "ID") for k in (k1, k2)):
+        payload = 2 ** 31 if payload > 0 else -5
+    bits = sh["bits"]
+    resp = run_case(ENGS[bits], MODELS[bits], doc, {pts[k1]: apply_fault(kind1, payload), pts[k2]: apply_fault(kind2, payload)})
+    if resp is False:
+        return verdict(False)
+    for k, kd in ((k1, kind1), (k2, kind2)):
+        if kd == 1 and any(tuple(e["path"]) == pts[k] for e in resp.get("errors", [])) and not user_error_kept(resp, pts[k], "user msg", 7):
+            return verdict(False)
+    return verdict(True)
